@@ -7,6 +7,7 @@ import json, os, random, re, shutil, subprocess, sys, tempfile, time, hashlib
 
 VERIF = os.path.dirname(os.path.dirname(os.path.abspath(__file__)))
 REPO = os.environ.get('VERIF_REPO', '/repo')
+OUT = os.environ.get('VERIF_OUT', VERIF)   # evidence/ and replays/ go here (redirected when trying seeded changes)
 COQ = os.path.join(VERIF, 'coq')
 PY = '/venv/bin/python'
 NPROC = os.cpu_count() or 4
@@ -301,22 +302,22 @@ class Ctx:
         lines = []
         for h in self.known_hits:
             lines.append('KNOWN-FINDING: property=%s %s' % (self.prop, h['what']))
-        os.makedirs(os.path.join(VERIF, 'replays'), exist_ok=True)
-        dpath = os.path.join(VERIF, 'replays', '%s-%d-disagreements.json' % (self.prop, self.seed))
+        os.makedirs(os.path.join(OUT, 'replays'), exist_ok=True)
+        dpath = os.path.join(OUT, 'replays', '%s-%d-disagreements.json' % (self.prop, self.seed))
         if os.path.exists(dpath):
             os.remove(dpath)
         if self.disagreements:
-            json.dump(self.disagreements[:200], open(os.path.join(VERIF, 'replays', '%s-%d-disagreements.json' % (self.prop, self.seed)), 'w'), indent=1, default=str)
+            json.dump(self.disagreements[:200], open(os.path.join(OUT, 'replays', '%s-%d-disagreements.json' % (self.prop, self.seed)), 'w'), indent=1, default=str)
         if self.violations:
             rc = 1
             for i, v in enumerate(self.violations[:5]):
-                path = os.path.join(VERIF, 'replays', '%s-%d-%d.json' % (self.prop, self.seed, i))
+                path = os.path.join(OUT, 'replays', '%s-%d-%d.json' % (self.prop, self.seed, i))
                 json.dump({'property': self.prop, 'id': v['id'], 'what': v['what'], 'replay': v['replay'],
                            'broken': self.broken, 'seed': self.seed, 'tier': self.tier}, open(path, 'w'), indent=1, default=str)
                 lines.append('VIOLATION property=%s replay=%s' % (self.prop, path))
         elif self.broken or self.disagreements:
             rc = 1
-            path = os.path.join(VERIF, 'replays', '%s-%d-broken.json' % (self.prop, self.seed))
+            path = os.path.join(OUT, 'replays', '%s-%d-broken.json' % (self.prop, self.seed))
             json.dump({'property': self.prop, 'broken_obligations': self.broken,
                        'correspondence_disagreements': self.disagreements[:50],
                        'note': 'a proof obligation or the model/implementation correspondence no longer checks; '
@@ -328,8 +329,8 @@ class Ctx:
               'violations': len(self.violations) + (1 if (not self.violations and (self.broken or self.disagreements)) else 0)}
         ev['coverage']['known_findings_reproduced'] = [h['id'] for h in self.known_hits]
         ev['coverage']['correspondence_disagreements'] = len(self.disagreements)
-        os.makedirs(os.path.join(VERIF, 'evidence'), exist_ok=True)
-        json.dump(ev, open(os.path.join(VERIF, 'evidence', self.prop + '.json'), 'w'), indent=1, default=str)
+        os.makedirs(os.path.join(OUT, 'evidence'), exist_ok=True)
+        json.dump(ev, open(os.path.join(OUT, 'evidence', self.prop + '.json'), 'w'), indent=1, default=str)
         for l in lines:
             print(l)
         print('%s tier=%s seed=%d evaluations=%d distinct=%d obligations=%d/%d disagreements=%d violations=%d wall=%.1fs'
